@@ -493,31 +493,60 @@ theorem C06_inline_always_clear (r : RState) (t : Term) (h : InlineOrCleared r t
 
 /-- **Alt-screen round trip.**  From an inline view (`InlineInv r t`): EnterAltScreen, then any
 `altStable` history on the alt screen — views, flushes, prints, modes, ClearScreen, repaints —
-then ExitAltScreen.  The inline invariant holds again; the main screen has exactly the cells, the
-window and the cursor row it had; the renderer remembers how many lines its inline view had; and
-the line cache is invalid, so that the next write + flush repaints exactly the latest view in
-place (`C06_inline_after_alt`).
+then ExitAltScreen.
+
+EnterAltScreen first brings the MAIN screen up to date: when printed lines are queued it runs one
+ordinary flush (`preAlt r = flush r`: the queued lines and the pending view are painted on the main
+screen, exactly as `C14_flush` / `C06_inline_flush_queued` describe), and nothing otherwise
+(`preAlt r = (r, [])` when `r.queued = []`).  Call the renderer and terminal after that `r0`, `t0`;
+the inline invariant holds for them.  Then, whatever happens on the alt screen: after
+ExitAltScreen the inline invariant holds again; the main screen has exactly the cells, the window
+and the cursor row of `t0`; the renderer remembers how many lines the inline view of `r0` had; its
+queue is that of `r0`; and the line cache is invalid, so that the next write + flush repaints
+exactly the latest view in place (`C06_inline_after_alt`).
 
 No side condition is needed on the history: a `printLine` issued while on the alt screen is
 IGNORED by the renderer (`step r (.printLine _) = (r, [])` when `altActive`, as in
 `standardRenderer.handleMessages`: `if !r.altScreenActive`), so it is neither printed nor queued,
 and an alt-screen flush neither prints nor drops the queue (`flushQ` requires `!altActive`).
-Hence the queue of printed lines after the round trip is the queue before it
-(`r3.queued = r.queued`); the hypothesis `r.queued = []` is not needed and the conclusion
-`r3.queued = []` follows from it when it holds. -/
+
+(Statement before the repair of `enterAltScreen`, which switched without rendering first: the same
+with `r`, `t` in place of `r0`, `t0` — `r3.queued = r.queued ∧ t3.main.cells = t.main.cells ∧ …` —
+i.e. queued lines were carried through the alt screen.  With `r.queued = []` the two statements
+coincide: `C06_alt_roundtrip_nothing_queued`.) -/
 theorem C06_alt_roundtrip (r : RState) (t : Term) (hinv : InlineInv r t) (ops : List ROp)
     (hs : ∀ o ∈ ops, altStable o = true) :
+    let r0 := (preAlt r).1
+    let t0 := applyOps t (preAlt r).2
     let r1 := (enterAlt r).1
     let t1 := applyOps t (enterAlt r).2
     let r2 := (run r1 ops).1
     let t2 := (run r1 ops).2.foldl applyOps t1
     let r3 := (exitAlt r2).1
     let t3 := applyOps t2 (exitAlt r2).2
-    InlineInv r3 t3 ∧ r3.queued = r.queued ∧ t3.main.cells = t.main.cells ∧
+    InlineInv r0 t0 ∧ t0.alt = t.alt ∧
+    InlineInv r3 t3 ∧ r3.queued = r0.queued ∧ t3.main.cells = t0.main.cells ∧
+    t3.main.top = t0.main.top ∧ t3.main.cr = t0.main.cr ∧
+    r3.linesRendered = r0.linesRendered ∧ r3.lastLines = none ∧
+    t3.w = t.w ∧ t3.h = t.h := by
+  intro r0 t0 r1 t1 r2 t2 r3 t3
+  obtain ⟨p1, p2, _, _⟩ := preAlt_inline r t hinv
+  exact ⟨p1, p2, alt_roundtrip r t hinv ops hs⟩
+
+/-- the round trip with nothing queued: the main screen after it is the main screen before it -/
+theorem C06_alt_roundtrip_nothing_queued (r : RState) (t : Term) (hinv : InlineInv r t)
+    (hq : r.queued = []) (ops : List ROp) (hs : ∀ o ∈ ops, altStable o = true) :
+    let r1 := (enterAlt r).1
+    let t1 := applyOps t (enterAlt r).2
+    let r2 := (run r1 ops).1
+    let t2 := (run r1 ops).2.foldl applyOps t1
+    let r3 := (exitAlt r2).1
+    let t3 := applyOps t2 (exitAlt r2).2
+    InlineInv r3 t3 ∧ r3.queued = [] ∧ t3.main.cells = t.main.cells ∧
     t3.main.top = t.main.top ∧ t3.main.cr = t.main.cr ∧
     r3.linesRendered = r.linesRendered ∧ r3.lastLines = none ∧
     t3.w = t.w ∧ t3.h = t.h :=
-  alt_roundtrip r t hinv ops hs
+  alt_roundtrip_noq r t hinv hq ops hs
 
 /-- **The first inline render after coming back from the alt screen** (nothing queued): the view
 is repainted in place — it starts at the tape row `viewTop r t` where the inline view started
@@ -544,9 +573,9 @@ theorem C06_inline_after_alt (r : RState) (t : Term) (hinv : InlineInv r t) (hq 
     (∀ ρ, ρ < viewTop r t → ∀ c, t'.main.cells ρ c = t.main.cells ρ c) ∧
     t'.main.top = max t.main.top (viewTop r t + (frameLines (write r3 s)).length - t.h) := by
   intro r1 t1 r2 t2 r3 t3 r' t'
-  obtain ⟨a1, a2, a3, a4, a5, a6, _, a8, a9⟩ := C06_alt_roundtrip r t hinv ops hs
+  obtain ⟨a1, a2, a3, a4, a5, a6, _, a8, a9⟩ := C06_alt_roundtrip_nothing_queued r t hinv hq ops hs
   obtain ⟨b1, b2, _, b4, b5, b6, b7, b8, b9, b10, b11, b12⟩ :=
-    C06_inline_flush r3 t3 a1 (a2.trans hq) s r' t' rfl rfl
+    C06_inline_flush r3 t3 a1 a2 s r' t' rfl rfl
   have hv : viewTop r3 t3 = viewTop r t := viewTop_congr a6 a5
   rw [hv] at b6 b9 b11 b12
   rw [a8] at b4 b9 b10
